@@ -30,8 +30,8 @@ def ev_calls(oc, name):
     return [e for e in oc['events'] if e[0] == 'call' and e[1] == name]
 
 
-def r1_login(ctx, prog):
-    r = ctx.rule('C03.R1', 'the PIN check is reached only when nobody is logged in; success iff the check succeeds; a failing call leaves nobody logged in', floor=40, engine='E1+E3 finite-domain')
+def r1_login(ctx, prog, rule_id='C03.R1'):
+    r = ctx.rule(rule_id, 'the PIN check is reached only when nobody is logged in; success iff the check succeeds; a failing call leaves nobody logged in', floor=40, engine='E1+E3 finite-domain')
     for fname, meth, other in (('Token::loginSO', 'loginSO', 'User'), ('Token::loginUser', 'loginUser', 'SO')):
         f = prog.fn(fname)
         ctx.analysed(f)
@@ -437,6 +437,8 @@ def run(ctx):
     c14.r2_createtoken(ctx, prog, rule_id='C03.R8')
     from rules import c11
     c11.r5_predicates(ctx, prog, rule_id='C03.R9')
+    c11.r7_session_ids(ctx, prog, rule_id='C03.R10')
+    c14.r3_keying(ctx, prog, rule_id='C03.R11')
 
 
 MUTANTS = [
